@@ -202,8 +202,22 @@ def eval_monad_groupby(a, backend):
     arr = backend.kg_asarray(a)
     if backend.array_size(arr) == 0:
         return arr
-    vals, first, inverse = bknp.unique(arr, return_index=True, return_inverse=True)
-    groups = [bknp.where(inverse == i)[0] for i in bknp.argsort(first)]  # in order of first appearance
+    if arr.ndim == 1:
+        try:
+            vals, first, inverse = bknp.unique(arr, return_index=True, return_inverse=True)
+            groups = [bknp.where(inverse == i)[0] for i in bknp.argsort(first)]  # in order of first appearance
+            return backend.kg_asarray(groups)
+        except (TypeError, ValueError):
+            pass  # members that cannot be sorted (mixed types, sublists)
+    keys, groups = [], []
+    for i, x in enumerate(arr):  # members are compared with Match
+        for k, g in zip(keys, groups):
+            if backend.kg_equal(k, x):
+                g.append(i)
+                break
+        else:
+            keys.append(x)
+            groups.append([i])
     return backend.kg_asarray(groups)
 
 
